@@ -1818,6 +1818,13 @@ class ProgramOptionsPrecedence(Contract):
         # variable in both (otherwise the value reaches its getter from one source only)
         split_ = {nm: sorted(ms) for nm, ms in sorted(bound.items()) if len(ms) > 1}
         ob('registration.every_option_is_bound_to_one_variable', not split_, f'options whose registrations are bound to different variables: {split_}')
+        # ---- (5a') A-PO-STORE holds for plain options only: an option declared composing() MERGES the values of all sources
+        # (command line and config file) instead of letting the first one stored win
+        merging = []
+        for n in _walk(ctor):
+            if n.get('kind') == 'CXXMemberCallExpr' and n['inner'][0].get('kind') == 'MemberExpr' and n['inner'][0].get('name') == 'composing':
+                merging.append(line_of(n) if ('range' in n or 'loc' in n) else 0)
+        ob('registration.no_option_merges_its_sources', not merging, f'options declared composing() (lines {merging}): for these the config-file values are appended to the command-line ones, the command line does not win')
         # ---- (5b) the effective value is the parsed one: parse() rewrites a variable bound to an option only to turn the documented
         # spelling of "none" ("/dev/null" for the file-name options) into the empty name, under a test of exactly that
         all_bound = set(m for ms in bound.values() for m in ms)
